@@ -751,6 +751,12 @@ def h5_copy_from_to(
         if not without_attrs:
             trg_atrs = trg_node.attrs
             for k, v in src_node.attrs.items():
+                if isinstance(v, str):
+                    try:
+                        v.encode("utf-8")
+                    except UnicodeEncodeError:
+                        # byte string that is not UTF-8 (read back with surrogate escapes)
+                        v = v.encode("utf-8", "surrogateescape")
                 trg_atrs[k] = v
 
     if isinstance(source_node, H5DatasetLike):
